@@ -579,3 +579,174 @@ def nfkc_case(rng):
     if v:
         case.update(expr=v[0], ascii=text, nfkc=f'{v[1]}/{v[2]}')
     return case
+
+
+# ------------------------------------------------------------------ look-alike names (value transparency)
+# A grammar author names the fields of a rule as the domain suggests: f_name, co_author, tb_1, formatter, open_,
+# class_, evaluate.  Such a name may start like, end like or contain a name that a sandbox has reasons to deny (frame /
+# generator / code introspection attributes, format, dunders, unsafe builtins) without being one.  Reading it - with
+# attribute syntax from a nested AST, by subscript, as a top-level name of the current AST - is a safe expression: its
+# value is what plain Python gives.  The vocabulary is derived from what the running interpreter exposes (the
+# introspection attributes of generator/coroutine/frame/traceback/code objects, the builtin names) and the dunders the
+# workload above already uses; nothing is taken from the evaluator under test.
+import types      # noqa: E402
+
+LOOK_RESERVED = {'a', 'n', 't', 'p', 'r', 'q', 'x', 'c', 'u', 'f', 'k', 'g', '_', 'sub', 'src_', 'double', 'l_name', 'year',
+                 # attributes of the class of the AST itself (an attribute read finds them before the field)
+                 'parseinfo', 'asjson', 'set_parseinfo', '_set', '_setlist', '_define', '_safekey', '_unsafe'}
+LOOK_ORDINARY = ['name', 'title', 'value', 'first', 'last', 'code', 'frame', 'back', 'func', 'module', 'doc', 'line',
+                 'evaluate', 'formatter', 'opener', 'importer', 'execute', 'compiler', 'typed', 'objective', 'superb',
+                 'helper', 'inputs', 'exits', 'printable', 'directory', 'variables', 'localised', 'globally', 'idx',
+                 'identity', 'classes', 'mro_list', 'subclass', 'selfie', 'basename', 'builtin', 'dunder', 'f', 'co', 'tb',
+                 'gi', 'cr', 'ag', 'f_', 'co_', 'tb_', 'gi_', 'cr_', 'ag_', '_f', 'x__y', 'x__', '_x', '_1', 'x_', 'X']
+
+
+def _introspection_attributes():
+    ts = (types.GeneratorType, types.CoroutineType, types.AsyncGeneratorType, types.FrameType, types.TracebackType,
+          types.CodeType)
+    return sorted({n for T in ts for n in dir(T) if not n.startswith('__')})
+
+
+LOOK_DENIED = {
+    'introspection': _introspection_attributes(),
+    'method': ['format', 'format_map', 'mro'],
+    'dunder': sorted({d for d in ATTRS_DUNDER if len(d) > 4 and d.startswith('__') and d.endswith('__')}),
+    'builtin': sorted(n for n in BUILTIN_NAMES if n[0].islower()),
+    'exception': ['ValueError', 'BaseException', 'Warning', 'SystemExit', 'KeyboardInterrupt'],
+}
+
+
+def _look_alikes(d, group):
+    """names that start like, end like, contain or are contained in the denied name ``d`` -> [(name, how)]"""
+    c = d.strip('_')
+    out = [(c + '_', 'suffix_'), ('_' + c, 'prefix_'), ('my_' + c, 'prefix-word'), (c + 's', 'suffix-s'),
+           (c[0].upper() + c[1:], 'capital')]
+    if group != 'builtin':
+        out += [(c + '2', 'suffix-digit'), (c + '__y', 'infix__'), (c + '__', 'suffix__'), ('_' + c + '_', '_both_'),
+                (c + '_name', 'suffix-word')]
+        if len(c) > 3:
+            out.append((c[:-1], 'chopped'))
+    if group == 'dunder':
+        out += [(c, 'bare'), ('x__' + c, 'infix__')]
+    if '_' in c:
+        head = c.split('_')[0]
+        out += [(f'{head}_name', 'same-prefix'), (f'{head}_1', 'same-prefix'), (f'{head}_author', 'same-prefix')]
+    if group == 'exception':
+        out += [('is' + c, 'same-suffix'), ('my' + c[-5:], 'same-suffix')]
+    return out
+
+
+def _build_look_vocabulary():
+    denied = {d for ds in LOOK_DENIED.values() for d in ds} | set(BUILTIN_NAMES) | set(ATTRS_DUNDER)
+    mangled = set(vars(dict))           # an AST key that is an attribute of dict is stored under another key
+    seen, out = set(), []
+    cands = [(w, 'ordinary', '') for w in LOOK_ORDINARY]
+    for group, ds in LOOK_DENIED.items():
+        for d in ds:
+            cands += [(nm, f'{group}:{how}', d) for nm, how in _look_alikes(d, group)]
+    for nm, how, d in cands:
+        if nm in seen or nm in denied or nm in mangled or nm in LOOK_RESERVED or nm.startswith('__'):
+            continue
+        if not (nm.isascii() and nm.isidentifier()) or keyword.iskeyword(nm) or keyword.issoftkeyword(nm):
+            continue
+        seen.add(nm)
+        out.append({'name': nm, 'how': how, 'like': d})
+    return out
+
+
+LOOK_VOCAB = _build_look_vocabulary()
+# the value a field has where it is bound: (in the nested AST r, in r.sub, at the top level of the current AST)
+LOOK_VALUES = {'str': ("'Ada'", "'Sub'", "'Top'"), 'int': ('41', '42', '43'), 'list': ('[4, 1]', '[5, 2]', '[6, 3]')}
+LOOK_ACCESS = [('attr', 'r.§'), ('sub', "r['§']"), ('top', '§'), ('nested-attr', 'r.sub.§'), ('sub-attr', "r['sub'].§"),
+               ('attr-sub', "r.sub['§']")]
+LOOK_WRAP = {
+    'str': ['@.upper()', 'len(@)', '@ + a', 'sorted(@)', '[@, n]', '@[0]', 'max(@, a)', "'%s!' % @", '(@).title()',
+            '@ if n else a', '[a + a for a in @]', 'ascii(@)', "'-'.join([@, a])", '@ * 2', "@ == 'Ada'",
+            "(@).replace('a', 'q')", 'len(@) + len(r.l_name)', '@ + r.l_name'],
+    'int': ['@ + n', 'abs(-@)', 'max(@, n)', 'hex(@)', '(@).bit_length()', '[@, n]', '@ * 2', 't[@ % 3]', 'divmod(@, 4)',
+            '@ < n', "format(@, '04d')", 'pow(@, 2)', '@ + r.year', 'round(@ / 2)', 'chr(@ + 40)'],
+    'list': ['len(@)', 'sorted(@)', '@[0]', '@ + t', 'sum(@)', '[n + 1 for n in @]', 'max(@)', '@[1:]', '@ * 2',
+             'sorted(@, key=abs)', 'any(@)', '[abs(n) for n in @ if n]', 'min(@) + r.year'],
+}
+LOOK_TEMPLATES = ['{@}', 'v {@} w', '{@!r} is it', 'w {@!s:>7} w', '{r.l_name}, {@}', '{@} / {n}', 'at {@}: {a}', 'with {@}',
+                  "{r['l_name']}, {@}", 'hello {@}', '{@}{@}']
+
+
+def look_type(name):
+    """the type of the values bound to a look-alike name (fixed per name)"""
+    return ('str', 'str', 'int', 'list')[sum(map(ord, name)) % 4]
+
+
+def look_case(name, access, wrap, others=()):
+    """one case: the field ``name`` (and ``others``) bound in a nested AST r, in r.sub and at the top level; the
+    expression reads it by ``access`` and uses the value in ``wrap`` ('' bare, a LOOK_WRAP form or a LOOK_TEMPLATES form)"""
+    how = dict(LOOK_ACCESS)[access]
+    ref = how.replace('§', name)
+    rec, sub, bind = {'l_name': "'Lovelace'", 'year': '1815'}, {'title': "'Countess'"}, {}
+    for nm in (name, *others):
+        v = LOOK_VALUES[look_type(nm)]
+        rec[nm], sub[nm], bind[nm] = v
+    rec['sub'] = sub
+    if not wrap:
+        expr, kind = ref, 'T'
+    elif wrap in LOOK_TEMPLATES:
+        expr, kind = wrap.replace('@', ref), 'interp'
+    else:
+        expr, kind = wrap.replace('@', ref), 'T'
+    return {'expr': expr, 'kind': kind, 'bind': bind, 'rec': rec, 'T': True,
+            'look': {'name': name, 'access': access, 'wrap': 'bare' if not wrap else 'template' if kind == 'interp' else
+                     'call' if '(' in wrap else 'operator'}}
+
+
+def look_wraps(name):
+    return LOOK_WRAP[look_type(name)]
+
+
+def look_direct_forms(name):
+    """the (access, wrap) pairs evaluated through the helper for every name: attribute syntax bare, in one use of the
+    value and in one interpolation template; every other access form in one of the three (fixed per name and access)"""
+    ws = look_wraps(name)
+    out = []
+    for i, (access, _how) in enumerate(LOOK_ACCESS):
+        k = sum(map(ord, name)) + i
+        forms = [(access, ''), (access, ws[k % len(ws)]), (access, LOOK_TEMPLATES[k % len(LOOK_TEMPLATES)])]
+        out += forms if access == 'attr' else [forms[k % 3]]
+    return out
+
+
+def look_random_case(rng):
+    """a look-alike name read in a random way, possibly next to a second one read another way"""
+    v = _pick(rng, LOOK_VOCAB)['name']
+    access = _pick(rng, LOOK_ACCESS)[0] if rng.random() < 0.5 else _pick(rng, ['attr', 'attr', 'nested-attr', 'sub-attr'])
+    r = rng.random()
+    wrap = '' if r < 0.1 else _pick(rng, LOOK_TEMPLATES) if r < 0.4 else _pick(rng, look_wraps(v))
+    case = look_case(v, access, wrap)
+    if rng.random() < 0.35:
+        # a second look-alike field in the same expression, read its own way
+        w = _pick(rng, LOOK_VOCAB)['name']
+        if w != v:
+            two = look_case(w, _pick(rng, LOOK_ACCESS)[0], '', others=(v,))
+            ref2 = two['expr']
+            case = look_case(v, access, wrap, others=(w,))
+            if case['kind'] == 'interp':
+                case['expr'] += ' & {' + ref2 + '}'
+            else:
+                case['expr'] = f'[{case["expr"]}, {ref2}]'
+    return case
+
+
+# ------------------------------------------------------------------ shadowed names read in nested scopes
+# An AST key named like a forbidden builtin is an ordinary name with the AST's value wherever the expression reads it:
+# also in the element / condition of a generator expression and in a lambda body handed to a pure builtin, whose free
+# names the interpreter resolves through the globals and builtins of the evaluation, not through the names it was given.
+SCOPE_SHADOWED = ['open', 'eval', 'exec', 'compile', 'print', 'exit', 'quit', 'input', 'help', 'getattr', 'setattr',
+                  'delattr', 'hasattr', 'vars', 'dir', 'globals', 'locals', 'type', 'object', 'super', 'breakpoint',
+                  'license', 'copyright', 'credits']
+SCOPE_FORMS = ['next(§ for _ in t)', 'next(§(a) for _ in t)', 'sum(1 for _ in t if §)', 'sorted(t, key=lambda q: §)',
+               'max(t, key=lambda q: §(a))', f"next(§('{TARGET}', 'w') for _ in t)", 'any(§ == a for a in t)',
+               '{next(§ for _ in t)}', "next(§(a, '__class__') for a in [a])", 'min(a, key=lambda q: §)']
+
+
+def scope_cases():
+    return [{'expr': form.replace('§', s), 'kind': 'shadow-scope', 'bind': {s: "'shadow'"}, 'T': False}
+            for s in SCOPE_SHADOWED for form in SCOPE_FORMS]
